@@ -22,6 +22,8 @@ import XmppModel.Model.SendFlush
                                                    -> <status> <status of the queued call> <canonical wire when the call returned> <final wire>
                                                        (SendFlush LTS: a pre-holder, the call, a queued call that parks / gives
                                                        up before its first token; run on the observed lock order)
+    pend <n> <same|diff> <entry> <ns> <from|-> <startTok|-> <toks> <form>
+                                                   -> the answer of the `tx` line (n requests are pending when the call is made)
     conc <n> <i0,i1,…>                             -> ok | bad   (is the observed order of
                                                        complete blocks a permutation of the calls)
 -/
@@ -80,7 +82,7 @@ def handedForm (entry start form : String) (ts : List Tok) : Option (List Tok) :
   | "pres" => match stanzaSendToks .presence fresh ts with | .ok o => some o | .error _ => none
   | _ => none
 
-def handle (args : List String) : Option String :=
+def handle0 (args : List String) : Option String :=
   match args with
   | ["queued", ns, from_, entry, start, toks, form, _wentry, wmode, wtoks, order] => do
     let fr ← if from_ == "-" then some "" else hexDecodeStr from_
@@ -233,5 +235,12 @@ def handle (args : List String) : Option String :=
     let l ← mapM? (fun (s : String) => s.toNat?) (splitList order)
     pure (if isPermOfRange n l then "ok" else "bad")
   | _ => none
+
+/-- `pend <n> <same|diff> <rest of a tx line>`: requests that are still waiting for their response
+(with the same id or not) are not an input of the transmit path: the answer is the `tx` line's -/
+def handle (args : List String) : Option String :=
+  match args with
+  | "pend" :: _n :: _mode :: rest => handle0 ("tx" :: rest)
+  | _ => handle0 args
 
 end XmppModel.Driver.C05
